@@ -160,7 +160,7 @@ var roleTable = []roleEntry{
 	}},
 	{ocidirRel, "OCIDir", "readIndex", func(p *core.Prog, f *ssa.Function) bool {
 		rs := sigResults(f)
-		return unexported(f) && len(rs) == 2 && core.IsModNamed(rs[0], "types/oci/v1", "Index")
+		return unexported(f) && len(rs) == 2 && core.IsModNamed(rs[0], "types/oci/v1", "Index") && isErr(rs[1])
 	}},
 	{ocidirRel, "OCIDir", "writeIndex", func(p *core.Prog, f *ssa.Function) bool {
 		return unexported(f) && takes(f, "types/oci/v1", "Index")
